@@ -152,7 +152,10 @@ theorem callDefsIn_bind (c : Cfg) (mods : Ids) :
       intro s hs
       simp only [callDefsIn, List.mem_append] at hs
       rcases hs with hs | hs
-      · exact callDefsIn_bind c mods b inDef useCD cal ccD rest path s hs
+      · by_cases hf : Generated.Names.callDefsDescendCalls = true
+        · simp only [hf, if_true] at hs
+          exact callDefsIn_bind c mods b inDef useCD cal ccD rest path s hs
+        · simp [hf] at hs
       · exact callDefsIn_bind c mods r inDef useCD cal ccD rest path s hs
 end
 
